@@ -364,3 +364,26 @@ Definition init_model (case : list N * list N * list (list N) * list stage) : V 
       VL [V_ires r; VN (now (io c)); VB (wr (io c)); VB (unread c);
           VB (match prompt c with Some (SLit p) => p | _ => [] end)]
   end.
+
+(* case: black-list, PS1 line, configuration lines, the spawn command, stages: the machine connects and initialises
+   its shell, enters a subshell (spawn + _init_shell of the inner shell) and leaves it again *)
+Definition subshell_sim_model (case : list N * list N * list (list N) * list N * list stage) : V :=
+  match case with
+  | (bl, ps1line, cfg, spawn, sts) =>
+      let c0 := load (hd_stage sts) (chan_init [] []) in
+      let '(r1, c1, sts1) := init_shell 50 205%Z bl ps1line cfg (tl sts) c0 in
+      match r1 with
+      | IOk =>
+          let '(r2, c2, sts2) := subshell_enter 50 205%Z bl ps1line cfg spawn sts1 c1 in
+          match r2 with
+          | IOk =>
+              let '(r3, c3, _) := subshell_leave sts2 c2 in
+              VL [V_ires r1; V_ires r2; V_ires r3; VN (now (io c3)); VB (wr (io c3)); VB (unread c3)]
+          | IUnclean _ => VL []          (* the offending output is compared by C01's init suite *)
+          | _ => VL [V_ires r1; V_ires r2; VL []; VN (now (io c2)); VB (wr (io c2)); VB (unread c2)]
+          end
+      | IUnclean _ => VL []
+      | _ => VL [V_ires r1; VL []; VL []; VN (now (io c1)); VB (wr (io c1)); VB (unread c1)]
+      end
+  end.
+
